@@ -160,7 +160,7 @@ class Prop:
             holder["w"] = w
             return w.body
 
-        sim, cps = th.explore(sc, factory, out)
+        sim, cps = th.explore(sc, factory, out, focus=("eventloopscheduler.py", "scheduleditem.py"))
         w = holder["w"]
         acts = list(w.acts.values())
         dig = th.interleaving_digest(sim)
